@@ -66,15 +66,24 @@ def counted {α} (p : P α) : P (List α) := do
   let n ← nat
   rep p n
 
-def poison : P Poison := do
+def poisonChars : List Char → Option (List PoisonExt)
+  | [] => some []
+  | 'p' :: a :: b :: rest =>
+    match a, b, poisonChars rest with
+    | '0', '0', some r => some (⟨false, false⟩ :: r)
+    | '0', '1', some r => some (⟨false, true⟩ :: r)
+    | '1', '0', some r => some (⟨true, false⟩ :: r)
+    | '1', '1', some r => some (⟨true, true⟩ :: r)
+    | _, _, _ => none
+  | _ => none
+
+/-- `a` = no poison extension; otherwise one `p<critical><null>` group per poison extension, in order. -/
+def poison : P (List PoisonExt) := do
   let t ← tok
-  match t with
-  | "a" => pure .absent
-  | "p00" => pure (.present false false)
-  | "p01" => pure (.present false true)
-  | "p10" => pure (.present true false)
-  | "p11" => pure (.present true true)
-  | _ => failure
+  if t = "a" then pure [] else
+  match poisonChars t.toList with
+  | some r => pure r
+  | none => failure
 
 def cert (id : Nat) : P Cert := do
   let subject ← nat
